@@ -14,7 +14,24 @@ Vocabulary
 * `dropEvs cfg ds`   : (from `Rehash.lean`) the log entries of dropping `ds`, LAST DROPPED FIRST. Hence
                        dropping `l` front to back prepends `dropEvs cfg l.reverse` to the log.
 * `DropsRel cfg w w' ds` : `w'` differs from `w` (apart from the table) only by the destructor calls
-                       for `ds` (newest first).
+                       for `ds` (newest first): counters `hc ec cc pc ac` equal, `dc` advanced,
+                       `log = dropEvs cfg ds ++ w.log`.
+* `ClearedOn t t' L` / `FilledOn t t' L` : same control bytes and counters, slots in `L` emptied / filled.
+* `Raw.cleared t`    : the table `clear_no_drop` leaves; `EmptiedOf cfg t t'` its properties.
+* `retainKept` / `retainDropped env pc l` : elements answered `(true, nv)` / `(false, nv)` by predicate
+                       calls `pc, pc+1, …` (payload `nv`); `cloneList env cc l` : position-wise clones.
+
+Main theorems (all "never `.fault`"; `#print axioms` at the end)
+  1 `dropElements_spec`   2 `clear_spec` (+ `clear_keeps_tombstones`)   3 `dropInnerTable_spec`
+  4 `iterOk_erase_not_pending`, `erase_yielded`, `erase_behind_iterator`, `retain_spec`, `retain_accounting`
+  5 `extractIf_spec`      6 `drain_spec`      7 `intoIter_spec`
+  8 `cloneTable_spec`, `cloneFrom_spec`       9 `mapEq_spec`      10 examples by `rfl`/`decide`.
+
+Deviations from the requested statements (all forced by the model, i.e. by hashbrown's behaviour)
+* `clear`: `items + growth_left = capacity` afterwards holds only when `items ≠ 0` on entry: an empty
+  table is returned untouched, tombstones included (`clear_keeps_tombstones`).
+* `clone` / `clone_from` can also end in `.abort` (the allocator refuses the new block).
+* `==` can propagate a panic of the hasher or of `Eq` (`.panic "hash"` / `.panic "eq"`).
 -/
 import Hb.Proofs.Rehash
 import Hb.Proofs.Resize
@@ -539,7 +556,7 @@ theorem dropInnerTable_spec (hc : CfgOk cfg) (env : Env) (old : Raw) (w : World)
       · rw [ha.1] at hal; cases hal
     have hel : old.elems = [] := List.eq_nil_of_length_eq_zero (by rw [ab_elems_length hc h.1, hit])
     simp only [dropInnerTable, hse, Bool.not_false, if_true, hel]
-    refine ⟨(by first | rfl | trivial), by simp [dropEvs_nil], w, DropsRel.refl w w.t, (by first | rfl | trivial)⟩
+    refine ⟨(by first | rfl | trivial), by simp [dropEvs_nil], w, DropsRel.refl w w.t, rfl⟩
   | true =>
     rw [hal] at hse
     obtain ⟨p, w1, ds, rest, h1, a1, a2, a3, a4, a5, a6, a7, a8, a9, a10, a11⟩ :=
@@ -558,7 +575,7 @@ theorem dropInnerTable_spec (hc : CfgOk cfg) (env : Env) (old : Raw) (w : World)
       simp only [if_true]
       refine ⟨(by first | rfl | trivial), ?_, w1, a9, ?_⟩
       · rw [a9.log]; simp
-      · first | rfl | trivial
+      · rfl
     | true =>
       simp only [if_true]
       obtain ⟨hn, ds', e, hds, hpan⟩ := a11 rfl
@@ -1071,6 +1088,7 @@ def RetainPost (cfg : Cfg) (env : Env) (w : World) (Pel l : List Elem) : Res Wor
       (retainKept env w.pc l).length + (retainDropped env w.pc l).length = l.length
   | .panic c w' => TInvB cfg w'.t ∧ ∃ pre x post, l = pre ++ x :: post ∧
       w'.pc = w.pc + pre.length + 1 ∧
+      (retainKept env w.pc pre).length + (retainDropped env w.pc pre).length = pre.length ∧
       ((c = "pred" ∧ env.pred (w.pc + pre.length) x = none ∧
           w'.t.elems = Pel ++ retainKept env w.pc pre ++ x :: post ∧
           w'.log = dropEvs cfg (retainDropped env w.pc pre).reverse ++ w.log) ∨
@@ -1092,8 +1110,9 @@ theorem RetainPost.keep {env : Env} {w w1 : World} {Pel es : List Elem} {e : Ele
     · rw [a3, hpc, List.length_cons]; omega
     · rw [a4, hpc, hlog]; simp [retainDropped, hp]
     · rw [hpc] at a5; simp [retainKept, retainDropped, hp]; omega
-  | .panic c w', ⟨a1, pre, x, post, b1, b2, b3⟩ =>
-    refine ⟨a1, e :: pre, x, post, by rw [b1]; rfl, by rw [b2, hpc, List.length_cons]; omega, ?_⟩
+  | .panic c w', ⟨a1, pre, x, post, b1, b2, bp, b3⟩ =>
+    refine ⟨a1, e :: pre, x, post, by rw [b1]; rfl, by rw [b2, hpc, List.length_cons]; omega,
+      (by rw [hpc] at bp; simp [retainKept, retainDropped, hp]; omega), ?_⟩
     have hidx : w.pc + (e :: pre).length = w1.pc + pre.length := by rw [hpc, List.length_cons]; omega
     rw [hidx]
     rcases b3 with ⟨c1, c2, c3, c4⟩ | ⟨c1, c2, nv', c3, c4, c5⟩
@@ -1116,8 +1135,9 @@ theorem RetainPost.drop {env : Env} {w w2 : World} {Pel es : List Elem} {e : Ele
     · rw [a3, hpc, List.length_cons]; omega
     · rw [a4, hpc, hlog]; simp [retainDropped, hp, dropEvs_append]
     · rw [hpc] at a5; simp [retainKept, retainDropped, hp]; omega
-  | .panic c w', ⟨a1, pre, x, post, b1, b2, b3⟩ =>
-    refine ⟨a1, e :: pre, x, post, by rw [b1]; rfl, by rw [b2, hpc, List.length_cons]; omega, ?_⟩
+  | .panic c w', ⟨a1, pre, x, post, b1, b2, bp, b3⟩ =>
+    refine ⟨a1, e :: pre, x, post, by rw [b1]; rfl, by rw [b2, hpc, List.length_cons]; omega,
+      (by rw [hpc] at bp; simp [retainKept, retainDropped, hp]; omega), ?_⟩
     have hidx : w.pc + (e :: pre).length = w2.pc + pre.length := by rw [hpc, List.length_cons]; omega
     rw [hidx]
     rcases b3 with ⟨c1, c2, c3, c4⟩ | ⟨c1, c2, nv', c3, c4, c5⟩
@@ -1218,7 +1238,7 @@ theorem retainLoop_spec (hc : CfgOk cfg) (env : Env) :
       cases hpred : env.pred w.pc (ab_elem w.t idx) with
       | none =>
         rw [retainLoop_step_none h1 hget hpred]
-        refine ⟨h, [], ab_elem w.t idx, xs.map (ab_elem w.t), rfl, rfl,
+        refine ⟨h, [], ab_elem w.t idx, xs.map (ab_elem w.t), rfl, rfl, by simp [retainKept, retainDropped],
           Or.inl ⟨rfl, by simpa using hpred, ?_, by simp [retainDropped, dropEvs_nil]⟩⟩
         show w.t.elems = _
         rw [hels]; simp [retainKept]
@@ -1286,7 +1306,8 @@ theorem retainLoop_spec (hc : CfgOk cfg) (env : Env) :
               have : cfg.needsDrop = true ∧ env.dropPanics w.dc x = true := by simpa using d3.symm
               exact this.1
             refine ⟨by rw [d1]; exact ⟨r3, hlo2⟩, [], ab_elem w.t idx, xs.map (ab_elem w.t), rfl,
-              by rw [hpc2]; rfl, Or.inr ⟨rfl, hnd', nv, by simpa using hpred, ?_, ?_⟩⟩
+              by rw [hpc2]; rfl, by simp [retainKept, retainDropped],
+              Or.inr ⟨rfl, hnd', nv, by simpa using hpred, ?_, ?_⟩⟩
             · rw [hels2]; simp [retainKept]
             · rw [hlog2, hE]; simp [retainDropped]
           | false =>
@@ -1324,6 +1345,7 @@ theorem retain_spec (hc : CfgOk cfg) (env : Env) (w : World) (h : TInvB cfg w.t)
           w.t.items
     | .panic c w' => TInvB cfg w'.t ∧ ∃ pre x post, w.t.elems = pre ++ x :: post ∧
         w'.pc = w.pc + pre.length + 1 ∧
+        (retainKept env w.pc pre).length + (retainDropped env w.pc pre).length = pre.length ∧
         ((c = "pred" ∧ env.pred (w.pc + pre.length) x = none ∧
             w'.t.elems = retainKept env w.pc pre ++ x :: post ∧
             w'.log = dropEvs cfg (retainDropped env w.pc pre).reverse ++ w.log) ∨
@@ -1338,11 +1360,76 @@ theorem retain_spec (hc : CfgOk cfg) (env : Env) (w : World) (h : TInvB cfg w.t)
   match r, hpost with
   | .ok w', ⟨a1, a2, a3, a4, a5⟩ =>
     exact ⟨a1, by simpa using a2, by rw [a3, hlen], a4, by rw [a5, hlen]⟩
-  | .panic c w', ⟨a1, pre, x, post, b1, b2, b3⟩ =>
-    refine ⟨a1, pre, x, post, b1, b2, ?_⟩
+  | .panic c w', ⟨a1, pre, x, post, b1, b2, bp, b3⟩ =>
+    refine ⟨a1, pre, x, post, b1, b2, bp, ?_⟩
     simpa using b3
   | .abort, hpost => exact hpost
   | .fault _, hpost => exact hpost
+
+
+/-- Identity of an element (everything but the mutable payload). -/
+def ab_ident (e : Elem) : Nat × Nat × Nat := (e.k, e.kid, e.vid)
+
+theorem retain_lengths_le (env : Env) : ∀ (l : List Elem) (pc : Nat),
+    (retainKept env pc l).length + (retainDropped env pc l).length ≤ l.length := by
+  intro l
+  induction l with
+  | nil => intro pc; simp [retainKept, retainDropped]
+  | cons e es ih =>
+    intro pc
+    have := ih (pc + 1)
+    simp only [retainKept, retainDropped]
+    cases env.pred pc e with
+    | none => simp only [List.length_cons]; omega
+    | some ans =>
+      obtain ⟨b, nv⟩ := ans
+      cases b <;> simp only [List.length_cons] <;> omega
+
+/-- If every predicate call answered, kept and dropped elements partition the input (up to the
+    payloads the predicate rewrote). -/
+theorem retain_partition (env : Env) : ∀ (l : List Elem) (pc : Nat),
+    (retainKept env pc l).length + (retainDropped env pc l).length = l.length →
+    ((retainKept env pc l ++ retainDropped env pc l).map ab_ident).Perm (l.map ab_ident) := by
+  intro l
+  induction l with
+  | nil => intro pc _; simp [retainKept, retainDropped]
+  | cons e es ih =>
+    intro pc hlen
+    have hle := retain_lengths_le env es (pc + 1)
+    simp only [retainKept, retainDropped] at hlen ⊢
+    cases hp : env.pred pc e with
+    | none =>
+      rw [hp] at hlen
+      simp only [List.length_cons] at hlen
+      omega
+    | some ans =>
+      obtain ⟨b, nv⟩ := ans
+      rw [hp] at hlen
+      cases b with
+      | true =>
+        simp only [List.length_cons] at hlen
+        have := ih (pc + 1) (by omega)
+        simp only [List.cons_append, List.map_cons]
+        exact List.Perm.cons _ this
+      | false =>
+        simp only [List.length_cons] at hlen
+        have := ih (pc + 1) (by omega)
+        simp only [List.map_append, List.map_cons]
+        refine List.perm_middle.trans ?_
+        rw [← List.map_append]
+        exact List.Perm.cons _ this
+
+/-- `retain`, `.ok`: every element is still present or was dropped, exactly once. -/
+theorem retain_accounting (hc : CfgOk cfg) (env : Env) (w w' : World) (h : TInvB cfg w.t)
+    (hr : Map.retain cfg env w = .ok w') :
+    ∃ ds, w'.log = dropEvs cfg ds.reverse ++ w.log ∧
+      ((w'.t.elems ++ ds).map ab_ident).Perm (w.t.elems.map ab_ident) := by
+  have := retain_spec hc env w h
+  rw [hr] at this
+  obtain ⟨_, a2, _, a4, a5⟩ := this
+  refine ⟨retainDropped env w.pc w.t.elems, a4, ?_⟩
+  rw [a2]
+  exact retain_partition env _ _ (by rw [a5, ab_elems_length hc h.1])
 
 /-! ### 5. `extract_if` -/
 
@@ -2372,5 +2459,248 @@ theorem cloneFrom_spec (hc : CfgOk cfg) (env : Env) (src : Raw) (w : World) (h :
   | .panic c w', hpost => exact hpost
   | .abort, hpost => exact hpost
   | .fault _, hpost => exact hpost
+
+/-! ### 9. `==` -/
+
+theorem getInner_total (hc : CfgOk cfg) (hp : ProbeCovers cfg) (env : Env) (k : Nat) (wq : World)
+    (hb : Inv cfg wq.t) :
+    (∃ r w', Map.getInner cfg env k wq = .ok (r, w') ∧ w'.t = wq.t ∧ w'.log = wq.log ∧
+      ∀ idx, r = some idx → idx ∈ wq.t.fullList) ∨
+    (∃ c w', Map.getInner cfg env k wq = .panic c w' ∧ (c = "hash" ∨ c = "eq") ∧ w'.t = wq.t ∧
+      w'.log = wq.log) := by
+  by_cases h0 : wq.t.items = 0
+  · left
+    exact ⟨none, wq, by simp only [Map.getInner, if_pos h0], rfl, rfl, fun _ h => by cases h⟩
+  · cases hh : env.hash wq.hc k with
+    | none =>
+      right
+      refine ⟨"hash", { wq with hc := wq.hc + 1 }, ?_, Or.inl rfl, rfl, rfl⟩
+      simp only [Map.getInner, if_neg h0, bind, Res.bind, makeHash, World.hashCall, hh]
+    | some hv =>
+      have hres : Map.getInner cfg env k wq = find cfg env hv k { wq with hc := wq.hc + 1 } := by
+        simp only [Map.getInner, if_neg h0, bind, Res.bind, makeHash, World.hashCall, hh]
+      rw [hres]
+      rcases find_total hc hp env hv k { wq with hc := wq.hc + 1 } hb with
+        ⟨r, w', f1, f2, f3, _, f5⟩ | ⟨w', f1, f2, f3⟩
+      · left
+        refine ⟨r, w', f1, f2, f3, ?_⟩
+        intro idx hr
+        obtain ⟨a, b, _⟩ := f5 idx hr
+        exact (mem_fullList _ _).2 ⟨a, b⟩
+      · right
+        exact ⟨"eq", w', f1, Or.inr rfl, f2, f3⟩
+/-- Postcondition of the comparison loop over the buckets `idxs` of `a`. -/
+def EqPost (cfg : Cfg) (env : Env) (a b : Raw) (idxs : List Nat) (w : World) :
+    Res (Bool × World) → Prop
+  | .ok (r, w') => w'.log = w.log ∧
+      (r = true → ∀ i ∈ idxs, ∃ e' ∈ b.elems, e'.v = (ab_elem a i).v) ∧
+      (r = false → ∃ i ∈ idxs, ∃ wq r' wq', wq.t = b ∧ wq.log = w.log ∧
+        Map.getInner cfg env (ab_elem a i).k wq = .ok (r', wq') ∧
+        (r' = none ∨ ∃ j, r' = some j ∧ (ab_elem b j).v ≠ (ab_elem a i).v))
+  | .panic c w' => (c = "hash" ∨ c = "eq") ∧ w'.log = w.log
+  | .abort => False
+  | .fault _ => False
+
+theorem eqLoop_spec (hc : CfgOk cfg) (hp : ProbeCovers cfg) (env : Env) (a b : Raw) (hb : Inv cfg b) :
+    ∀ (idxs : List Nat) (w : World), (∀ i ∈ idxs, ∃ e, ab_slot a i = some e) →
+      EqPost cfg env a b idxs w (Map.eqLoop cfg env a b idxs w) := by
+  intro idxs
+  induction idxs with
+  | nil =>
+    intro w _
+    exact ⟨rfl, (fun _ i hi => by cases hi), (fun h => by cases h)⟩
+  | cons i rest ih =>
+    intro w hsl
+    obtain ⟨e, he⟩ := hsl i List.mem_cons_self
+    have hei := ab_elem_of he
+    rw [Map.eqLoop, ab_slotGet he]
+    simp only
+    rcases getInner_total hc hp env e.k { w with t := b } hb with
+      ⟨r, w1, g1, g2, g3, g4⟩ | ⟨c, w1, g1, g2, _, g3⟩
+    · rw [g1]
+      cases r with
+      | none =>
+        simp only
+        refine ⟨g3, (fun h => by cases h), fun _ => ⟨i, List.mem_cons_self, { w with t := b }, none, w1, rfl,
+          rfl, by rw [hei]; exact g1, Or.inl rfl⟩⟩
+      | some j =>
+        simp only
+        have hjf := g4 j rfl
+        have hjs := hb.ab_full hc hjf
+        rw [ab_slotGet hjs]
+        simp only
+        by_cases hv : e.v = (ab_elem b j).v
+        · rw [if_pos hv]
+          have hrec := ih w1 (fun k hk => hsl k (List.mem_cons_of_mem _ hk))
+          have hlog1 : w1.log = w.log := g3
+          generalize Map.eqLoop cfg env a b rest w1 = res at hrec ⊢
+          match res, hrec with
+          | .ok (r, w'), ⟨q1, q2, q3⟩ =>
+            refine ⟨q1.trans hlog1, ?_, ?_⟩
+            · intro hr k hk
+              rcases List.mem_cons.mp hk with rfl | hk
+              · refine ⟨ab_elem b j, ?_, by rw [hei]; exact hv.symm⟩
+                rw [ab_elems_map hc hb]; exact List.mem_map_of_mem hjf
+              · exact q2 hr k hk
+            · intro hr
+              obtain ⟨k, hk, wq, r', wq', z1, z2, z3, z4⟩ := q3 hr
+              exact ⟨k, List.mem_cons_of_mem _ hk, wq, r', wq', z1, z2.trans hlog1, z3, z4⟩
+          | .panic c w', ⟨q1, q2⟩ => exact ⟨q1, q2.trans hlog1⟩
+          | .abort, hrec => exact hrec.elim
+          | .fault _, hrec => exact hrec.elim
+        · rw [if_neg hv]
+          refine ⟨g3, (fun h => by cases h), fun _ => ⟨i, List.mem_cons_self, { w with t := b }, some j, w1, rfl,
+            rfl, by rw [hei]; exact g1, Or.inr ⟨j, rfl, by rw [hei]; exact fun h => hv h.symm⟩⟩⟩
+    · rw [g1]
+      exact ⟨g2, g3⟩
+
+/-- **9.** `PartialEq`: never faults (for any, possibly unlawful, hasher / `Eq`); table and log are
+    untouched; unequal lengths give `false`; `true` implies equal lengths and that every element of
+    `a = w.t` has an element with equal payload in `b` (the one the environment's `find` returned);
+    `false` with equal lengths means that for some element of `a` a look-up in `b` (some `get_inner`
+    call against `b`) found nothing or an element with a different payload. A panicking hasher / `Eq`
+    propagates. -/
+theorem mapEq_spec (hc : CfgOk cfg) (hp : ProbeCovers cfg) (env : Env) (b : Raw) (w : World)
+    (ha : Inv cfg w.t) (hb : Inv cfg b) :
+    match Map.mapEq cfg env b w with
+    | .ok (r, w') => w'.t = w.t ∧ w'.log = w.log ∧ (w.t.items ≠ b.items → r = false) ∧
+        (r = true → w.t.items = b.items ∧ ∀ e ∈ w.t.elems, ∃ e' ∈ b.elems, e'.v = e.v) ∧
+        (r = false → w.t.items ≠ b.items ∨ ∃ e ∈ w.t.elems, ∃ wq r' wq', wq.t = b ∧ wq.log = w.log ∧
+          Map.getInner cfg env e.k wq = .ok (r', wq') ∧
+          (r' = none ∨ ∃ j, r' = some j ∧ (ab_elem b j).v ≠ e.v))
+    | .panic c w' => (c = "hash" ∨ c = "eq") ∧ w'.t = w.t ∧ w'.log = w.log
+    | .abort => False
+    | .fault _ => False := by
+  by_cases hit : w.t.items ≠ b.items
+  · have hres : Map.mapEq cfg env b w = .ok (false, w) := by
+      simp only [Map.mapEq, if_pos hit]
+    rw [hres]
+    exact ⟨rfl, rfl, fun _ => rfl, (fun h => by cases h), fun _ => Or.inl hit⟩
+  · have hit' : w.t.items = b.items := by
+      by_contra hne; exact hit hne
+    have hloop := eqLoop_spec hc hp env w.t b hb w.t.fullList w (fun i hi => ⟨_, ha.ab_full hc hi⟩)
+    have hel := ab_elems_map hc ha
+    have hres : Map.mapEq cfg env b w =
+        match Map.eqLoop cfg env w.t b w.t.fullList w with
+        | .ok (r, w') => .ok (r, { w' with t := w.t })
+        | .panic c w' => .panic c { w' with t := w.t }
+        | .abort => .abort
+        | .fault f => .fault f := by
+      simp only [Map.mapEq, if_neg hit, fullIndices_spec hc ha]
+      rfl
+    rw [hres]
+    generalize Map.eqLoop cfg env w.t b w.t.fullList w = res at hloop ⊢
+    match res, hloop with
+    | .ok (r, w'), ⟨q1, q2, q3⟩ =>
+      refine ⟨rfl, q1, fun hne => absurd hne hit, ?_, ?_⟩
+      · intro hr
+        refine ⟨hit', ?_⟩
+        intro e he
+        rw [hel] at he
+        obtain ⟨i, hi, rfl⟩ := List.mem_map.mp he
+        exact q2 hr i hi
+      · intro hr
+        right
+        obtain ⟨i, hi, rest⟩ := q3 hr
+        exact ⟨ab_elem w.t i, by rw [hel]; exact List.mem_map_of_mem hi, rest⟩
+    | .panic c w', ⟨q1, q2⟩ => exact ⟨q1, rfl, q2⟩
+    | .abort, hloop => exact hloop.elim
+    | .fault _, hloop => exact hloop.elim
+
+/-! ### 10. non-vacuity -/
+
+/-- Environment for the examples: keep odd keys and add 10 to every payload; clones get identities
+    `100 + call`, `200 + call`; nothing panics. -/
+def bulkExEnv : Env :=
+  { hash := fun _ _ => some 0, eq := fun _ _ _ => some false,
+    clone := fun c _ => some (100 + c, 200 + c),
+    pred := fun _ e => some (e.k % 2 == 1, e.v + 10), allocOk := fun _ => true,
+    dropPanics := fun _ _ => false }
+
+/-- The 4-bucket table with 3 elements of `Resize.lean` satisfies `TInvB`'s executable part. -/
+example : invB { ops := Sse2.ops } resizeExTable = true := by decide
+
+/-- Drain 2 of 3 elements, then drop the `Drain`: the third element is dropped once, the table is
+    the same block emptied. -/
+example :
+    (match Map.drain { ops := Sse2.ops } bulkExEnv 2 false { t := resizeExTable } with
+     | .ok (out, w') =>
+       out == [⟨1, 1, 1, 1⟩, ⟨2, 2, 2, 2⟩] && w'.log == [.dropV 3, .dropK 3] && w'.dc == 1 &&
+       w'.t.items == 0 && w'.t.gl == 3 && w'.t.mask == 3 && w'.t.alloc &&
+       invB { ops := Sse2.ops } w'.t
+     | _ => false) = true := by
+  rfl
+
+/-- `into_iter`, 2 of 3 taken: the third is dropped, the block (52 bytes, align 16) freed. -/
+example :
+    (match Map.intoIter { ops := Sse2.ops } bulkExEnv 2 { t := resizeExTable } with
+     | .ok (out, w') =>
+       out == [⟨1, 1, 1, 1⟩, ⟨2, 2, 2, 2⟩] && w'.log == [.free 52 16, .dropV 3, .dropK 3] &&
+       w'.t.mask == 0 && !w'.t.alloc
+     | _ => false) = true := by
+  rfl
+
+/-- `retain(|k, v| { *v += 10; k % 2 == 1 })`: keys 1 and 3 stay with payloads 11 and 13, key 2 is
+    dropped once with payload 12. -/
+example :
+    (match Map.retain { ops := Sse2.ops } bulkExEnv { t := resizeExTable } with
+     | .ok w' =>
+       w'.t.elems == [⟨1, 1, 1, 11⟩, ⟨3, 3, 3, 13⟩] && w'.log == [.dropV 2, .dropK 2] && w'.pc == 3 &&
+       invB { ops := Sse2.ops } w'.t
+     | _ => false) = true := by
+  rfl
+
+example : retainKept bulkExEnv 0 resizeExTable.elems = [⟨1, 1, 1, 11⟩, ⟨3, 3, 3, 13⟩] := by decide
+example : retainDropped bulkExEnv 0 resizeExTable.elems = [⟨2, 2, 2, 12⟩] := by decide
+
+/-- `extract_if` with one `next`: key 1 is handed out (payload 11), the others are untouched. -/
+example :
+    (match Map.extractIf { ops := Sse2.ops } bulkExEnv 1 { t := resizeExTable } with
+     | .ok (out, w') =>
+       out == [⟨1, 1, 1, 11⟩] && w'.t.elems == [⟨2, 2, 2, 2⟩, ⟨3, 3, 3, 3⟩] && w'.log == [] &&
+       invB { ops := Sse2.ops } w'.t
+     | _ => false) = true := by
+  rfl
+
+/-- `clone`: same keys and payloads, fresh identities, one allocation. -/
+example :
+    (match Map.cloneTable { ops := Sse2.ops } bulkExEnv { t := resizeExTable } with
+     | .ok (nt, w') =>
+       nt.elems == [⟨1, 100, 200, 1⟩, ⟨2, 101, 201, 2⟩, ⟨3, 102, 202, 3⟩] && w'.log == [.alloc 52 16] &&
+       invB { ops := Sse2.ops } nt
+     | _ => false) = true := by
+  rfl
+
+/-- 8 buckets (portable scanner, width 8), no element, one tombstone: a state `erase` can leave. -/
+def tombstoneTable : Raw :=
+  { mask := 7
+    ctrl := #[128, 255, 255, 255, 255, 255, 255, 255, 128, 255, 255, 255, 255, 255, 255, 255]
+    slots := Array.replicate 8 none, items := 0, gl := 6, alloc := true }
+
+/-- `clear` on an EMPTY table returns early (`if self.is_empty() { return }`), so tombstones stay and
+    `items + growth_left` stays below the capacity: the requested clause
+    `w'.t.items + w'.t.gl = bucketMaskToCapacity w.t.mask` of `clear_spec` holds only for
+    `w.t.items ≠ 0`. -/
+theorem clear_keeps_tombstones :
+    invB { ops := Generic.ops } tombstoneTable = true ∧
+    (match clear { ops := Generic.ops } bulkExEnv { t := tombstoneTable } with
+     | .ok w' => w'.t.items + w'.t.gl == 6 && bucketMaskToCapacity tombstoneTable.mask == 7
+     | _ => false) = true := ⟨by decide, by rfl⟩
+
+
+#print axioms dropElements_spec
+#print axioms clear_spec
+#print axioms dropInnerTable_spec
+#print axioms drain_spec
+#print axioms intoIter_spec
+#print axioms iterOk_erase_not_pending
+#print axioms erase_behind_iterator
+#print axioms retain_spec
+#print axioms retain_accounting
+#print axioms extractIf_spec
+#print axioms cloneTable_spec
+#print axioms cloneFrom_spec
+#print axioms mapEq_spec
+#print axioms clear_keeps_tombstones
 
 end Hb
